@@ -15,7 +15,7 @@ as BSIM-CMG `.model` definitions. These are represented as (FIXME: ...)
 import copy
 from typing import Union, Optional
 from types import SimpleNamespace
-from dataclasses import asdict
+from dataclasses import fields
 
 from pydantic.dataclasses import dataclass
 
@@ -105,7 +105,8 @@ class Asap7Walker(h.HierarchyWalker):
 
         # Translate its parameters
         # FIXME: further parameter transformations likely to come
-        modparams = asdict(params)
+        # Note `dataclasses.asdict` would recurse into, and make `dict`s of, `h.Literal` values
+        modparams = {f.name: getattr(params, f.name) for f in fields(params)}
         modparams.pop("vth", None)
 
         # Combine the two into a call, cache and return it
